@@ -145,6 +145,9 @@ def state_diff(before, after):
                 mism.append((k, f"{before[k][:80]} -> {str(after.get(k))[:80]}"))
         elif before[k] != after.get(k):
             mism.append((k, "function object replaced and not restored"))
+    for k in after:
+        if k not in before and k.startswith("setting:sharepoint2text") and after[k] != "None":
+            mism.append((k, f"(absent) -> {str(after[k])[:80]}"))
     return mism
 
 
@@ -431,10 +434,28 @@ def package_state():
                 out[f"setting:{name}.{k}"] = repr(v)[:200]
             elif hasattr(v, "__dataclass_fields__") and not isinstance(v, type):
                 out[f"setting:{name}.{k}"] = repr(v)[:300]
+            # state hidden on code objects: function attributes, mutable default arguments (also of methods)
+            fs = []
+            if getattr(v, "__module__", None) == name and callable(v):
+                if isinstance(v, type):
+                    fs = [(f"{k}.{a}", getattr(m, "__func__", m)) for a, m in list(vars(v).items()) if callable(getattr(m, "__func__", m))]
+                    for a, m in list(vars(v).items()):
+                        if isinstance(m, (bool, int, float, str)) and not a.startswith("__"):
+                            out[f"setting:{name}.{k}.{a}"] = repr(m)[:120]
+                else:
+                    fs = [(k, v)]
+            for (fq, f) in fs:
+                f = getattr(f, "__wrapped__", f)
+                for a, val in list(getattr(f, "__dict__", {}).items()):
+                    if a != "__wrapped__" and isinstance(val, (bool, int, float, str, bytes, type(None), list, dict, set, tuple)):
+                        out[f"setting:{name}.{fq}.{a}"] = repr(val)[:200]
+                dfl = list(getattr(f, "__defaults__", None) or ()) + list((getattr(f, "__kwdefaults__", None) or {}).values())
+                if any(isinstance(d, (list, dict, set, bytearray)) for d in dfl):
+                    out[f"setting:{name}.{fq}.__defaults__"] = repr([d for d in dfl if isinstance(d, (list, dict, set, bytearray))])[:300]
     return out
 
 
-def corrupted_archives(tmp, per_file=14):
+def corrupted_archives(tmp, per_file=9):
     """[(label, path)]: the small archive fixtures with a few bytes of their packed data destroyed at several places -- the header
     still parses, unpacking fails half-way (the paths on which temporary directories and patched configuration must be undone)."""
     out = []
